@@ -804,7 +804,11 @@ coap_find_observer_cache_key(coap_resource_t *resource, coap_session_t *session,
 
 /* https://rfc-editor.org/rfc/rfc7641#section-3.6 */
 static const uint16_t cache_ignore_options[] = { COAP_OPTION_ETAG,
-                                                 COAP_OPTION_OSCORE
+                                                 COAP_OPTION_OSCORE,
+                                                 /* the block size asked for does
+                                                    not make another observation */
+                                                 COAP_OPTION_BLOCK2,
+                                                 COAP_OPTION_Q_BLOCK2
                                                };
 coap_subscription_t *
 coap_add_observer(coap_resource_t *resource,
